@@ -211,6 +211,8 @@ public:
     double x2 = hyper_ ?
         (tanh(x / scale_) + 1.) * (upperBound_ - lowerBound_) / 2. + lowerBound_ :
         (atan(x / scale_) + NumConstants::PI() / 2.) * (upperBound_ - lowerBound_) / NumConstants::PI() + lowerBound_;
+    if (x2 > upperBound_) x2 = upperBound_; // rounding of (upper - lower) must not carry the image outside
+    if (x2 < lowerBound_) x2 = lowerBound_;
     return x2;
   }
 
